@@ -770,6 +770,127 @@ def b_insert_point(S):
     return out
 
 
+def b_simple_snap(S):
+    """`simple_snap` (first snapping stage for one trace): candidate pre-filter, the replacement dictionary built candidate by
+    candidate and end by end (already-snapped skip, vertex within the threshold, overlapping-snap skip, nearest interior vertex,
+    ValueError on a second replacement of one end), the rewrite of the coordinates. Geometry is a parameter."""
+    src = S[BAN]
+    C = {
+        "get_trace_endpoints(trace)": "(ends_of trace)",
+        "endpoint.distance(candidate)": "(ldist endpoint candidate)",
+        "dict()": "[]",
+        "get_trace_coord_points(trace_to_snap_to)[1:-1]": "(interior_of trace_to_snap_to)",
+        "endpoint.intersects(coord_point)": "(same endpoint coord_point)",
+        "coord_point.distance(endpoint)": "(pdist coord_point endpoint)",
+        "min(distances)": "(listMin distances)",
+        "line_intersection_to_points(first=trace, second=trace_to_snap_to)": "(inter trace trace_to_snap_to)",
+        "intersection_point.distance(endpoint)": "(pdist intersection_point endpoint)",
+        "sorted(zip(coord_points, distances), key=lambda vals: vals[1])": "(pySortedBy (fun vals => vals.2) (List.zip coord_points distances))",
+        "endpoint.wkt": "endpoint",
+        "sorted_points[0][0]": "(List.headD sorted_points (endpoint, 0)).1",
+        "get_trace_coord_points(trace)": "(coords_of trace)",
+        "point.wkt": "point",
+        "replace_endpoint[point.wkt]": "((alistGet? replace_endpoint point).getD point)",
+        "LineString(trace_coords)": "(mk_line trace_coords)",
+    }
+    T = {"get_trace_endpoints(trace)": "List P", "trace_endpoints": "List P", "endpoint.distance(candidate)": "Rat", "traces_to_snap_to": "List L",
+         "dict()": "AList P P", "replace_endpoint": "AList P P", "get_trace_coord_points(trace_to_snap_to)[1:-1]": "List P", "coord_points": "List P",
+         "endpoint.intersects(coord_point)": "Bool", "coord_point.distance(endpoint)": "Rat", "distances": "List Rat", "min(distances)": "Rat",
+         "line_intersection_to_points(first=trace, second=trace_to_snap_to)": "List P", "intersection_points": "List P",
+         "intersection_point.distance(endpoint)": "Rat", "sorted(zip(coord_points, distances), key=lambda vals: vals[1])": "List (P × Rat)",
+         "sorted_points": "List (P × Rat)", "endpoint.wkt": "P", "sorted_points[0][0]": "P", "get_trace_coord_points(trace)": "List P", "trace_coords": "List P",
+         "point.wkt": "P", "replace_endpoint[point.wkt]": "P", "LineString(trace_coords)": "L", "modified": "L", "endpoint": "P", "point": "P", "candidate": "L",
+         "trace_to_snap_to": "L", "coord_point": "P", "intersection_point": "P"}
+    return translate_function(
+        src, "simple_snap", "simple_snap", {"trace": "L", "trace_candidates": "List L", "snap_threshold": "Rat"}, "L × Bool", C, types=T, raises=True,
+        extra_params=[("{L}", "Type"), ("{P}", "Type"), ("[BEq P]", ""), ("ends_of", "L → List P"), ("ldist", "P → L → Rat"), ("interior_of", "L → List P"), ("same", "P → P → Bool"),
+                      ("pdist", "P → P → Rat"), ("inter", "L → L → List P"), ("coords_of", "L → List P"), ("mk_line", "List P → L")],
+        slice_from="trace_endpoints = get_trace_endpoints", default_num="Rat", join="tuple")
+
+
+def b_snap_stage(S):
+    """`resolve_trace_candidates`, `snap_trace_simple`, `snap_others_to_trace` and `snap_traces` (one whole snapping pass): the candidate window through
+    the spatial index (a parameter), `list.remove`'s ValueError, the trace-among-its-candidates ValueError, the boundary filter, both comprehensions of
+    `snap_traces` as `mapM` (evaluated in order, first exception propagates), the change flag. Callees regenerated elsewhere (`simple_snap`,
+    `is_endpoint_close_to_boundary`, `snap_trace_to_another`) are called, geometry is a parameter."""
+    src = S[BAN]
+    out = []
+    # resolve_trace_candidates: extended bounds -> index query (parameter), own index removed (ValueError of list.remove when absent), geometries picked
+    C = {
+        "geom_bounds(trace)": "(bounds_of trace)",
+        "list(traces_spatial_index.intersection(extended_bounds))": "(index_query extended_bounds)",
+        "[i.item() for i in trace_candidate_idxs_raw if isinstance(i.item(), int)]": "trace_candidate_idxs_raw",
+        "traces[i]": "(List.getD traces i trace)",
+    }
+    T = {"geom_bounds(trace)": "Rat × Rat × Rat × Rat", "minx": "Rat", "miny": "Rat", "maxx": "Rat", "maxy": "Rat", "extended_bounds": "Rat × Rat × Rat × Rat",
+         "list(traces_spatial_index.intersection(extended_bounds))": "List Nat", "trace_candidate_idxs_raw": "List Nat", "trace_candidate_idxs": "List Nat",
+         "[i.item() for i in trace_candidate_idxs_raw if isinstance(i.item(), int)]": "List Nat", "traces[i]": "L", "trace_candidates": "List L"}
+    out.append(translate_function(
+        src, "resolve_trace_candidates", "resolve_trace_candidates", {"trace": "L", "idx": "Nat", "traces": "List L", "snap_threshold": "Rat"}, "List L", C, types=T, raises=True,
+        extra_params=[("{L}", "Type"), ("bounds_of", "L → Rat × Rat × Rat × Rat"), ("index_query", "Rat × Rat × Rat × Rat → List Nat")],
+        slice_from="minx, miny, maxx, maxy = geom_bounds(trace)", default_num="Rat", join="tuple", strict_remove=True))
+    # snap_trace_simple
+    kw = "resolve_trace_candidates(trace=trace, idx=idx, traces=traces, traces_spatial_index=traces_spatial_index, snap_threshold=snap_threshold)"
+    C = {kw: "(resolve_trace_candidates bounds_of index_query trace idx traces snap_threshold)",
+         "simple_snap(trace, trace_candidates, snap_threshold)": "(simple_snap_ trace trace_candidates snap_threshold)"}
+    T = {kw: "Except (List L)", "trace_candidates": "List L", "simple_snap(trace, trace_candidates, snap_threshold)": "Except (L × Bool)", "was_simple_snapped": "Bool"}
+    out.append(translate_function(
+        src, "snap_trace_simple", "snap_trace_simple", {"idx": "Nat", "trace": "L", "snap_threshold": "Rat", "traces": "List L"}, "L × Bool", C, types=T, raises=True,
+        extra_params=[("{L}", "Type"), ("bounds_of", "L → Rat × Rat × Rat × Rat"), ("index_query", "Rat × Rat × Rat × Rat → List Nat"),
+                      ("simple_snap_", "L → List L → Rat → Except String (L × Bool)")],
+        default_num="Rat", join="tuple"))
+    # snap_others_to_trace
+    C = {kw: "(resolve_trace_candidates bounds_of index_query trace idx traces snap_threshold)",
+         "trace in list(trace_candidates)": "(List.elem trace trace_candidates)",
+         "list(chain(*[list(get_trace_endpoints(trace_candidate)) for trace_candidate in trace_candidates]))": "(List.flatMap ends_of trace_candidates)",
+         "is_endpoint_close_to_boundary(ep, areas, snap_threshold=snap_threshold)": "(is_endpoint_close_to_boundary bdist ep (areas.getD []) snap_threshold)",
+         "snap_trace_to_another(trace_endpoints=endpoints, another=trace, snap_threshold=snap_threshold)": "(snap_trace_to_another dist on insert endpoints trace snap_threshold)"}
+    T = {kw: "Except (List L)", "trace_candidates": "List L", "trace in list(trace_candidates)": "Bool",
+         "list(chain(*[list(get_trace_endpoints(trace_candidate)) for trace_candidate in trace_candidates]))": "List P", "endpoints": "List P", "ep": "P",
+         "is_endpoint_close_to_boundary(ep, areas, snap_threshold=snap_threshold)": "Bool",
+         "snap_trace_to_another(trace_endpoints=endpoints, another=trace, snap_threshold=snap_threshold)": "L × Bool", "was_snapped": "Bool", "error": "String"}
+    out.append(translate_function(
+        src, "snap_others_to_trace", "snap_others_to_trace", {"idx": "Nat", "trace": "L", "snap_threshold": "Rat", "traces": "List L", "areas": "Option (List A)"}, "L × Bool", C, types=T, raises=True,
+        extra_params=[("{L}", "Type"), ("{P}", "Type"), ("{A}", "Type"), ("[BEq L]", ""), ("bounds_of", "L → Rat × Rat × Rat × Rat"), ("index_query", "Rat × Rat × Rat × Rat → List Nat"),
+                      ("ends_of", "L → List P"), ("bdist", "P → A → Rat"), ("dist", "P → L → Rat"), ("on", "P → L → Bool"), ("insert", "L → P → Rat → L")],
+        slice_from="trace_candidates = resolve_trace_candidates", default_num="Rat", join="tuple"))
+    # snap_traces: both comprehensions (evaluated in order, the first exception propagates) are mapped to mapM over the enumerated list
+    fn = find_func(ast.parse(src), "snap_traces")
+    zips = [n for n in ast.walk(fn) if isinstance(n, ast.Call) and ast.unparse(n.func) == "zip"]
+    if len(zips) != 2 or any(len(z.args) != 1 or not isinstance(z.args[0], ast.Starred) or not isinstance(z.args[0].value, ast.ListComp) for z in zips):
+        raise Untranslatable("snap_traces: expected two zip(*[...]) over list comprehensions")
+    zips.sort(key=lambda z: z.lineno)
+    want = [("snap_trace_simple", ["idx", "trace", "snap_threshold", "traces", "traces_spatial_index"], {"final_allowed_loop": "final_allowed_loop"}, "enumerate(traces)"),
+            ("snap_others_to_trace", [], {"idx": "idx", "trace": "trace", "snap_threshold": "snap_threshold", "traces_spatial_index": "traces_spatial_index", "areas": "areas",
+                                          "traces": "simply_snapped_traces_list", "final_allowed_loop": "final_allowed_loop"}, "enumerate(simply_snapped_traces)")]
+    for z, (callee, pos, kws, it) in zip(zips, want):
+        lc = z.args[0].value
+        call = lc.elt
+        g = lc.generators[0]
+        if not (isinstance(call, ast.Call) and ast.unparse(call.func) == callee and [ast.unparse(a) for a in call.args] == pos
+                and {k.arg: ast.unparse(k.value) for k in call.keywords} == kws and len(lc.generators) == 1 and not g.ifs
+                and ast.unparse(g.target) == "(idx, trace)" and ast.unparse(g.iter) == it):
+            raise Untranslatable(f"snap_traces: the comprehension calling {callee} changed")
+    k1, k2 = ast.unparse(zips[0]), ast.unparse(zips[1])
+    C = {"gpd.GeoSeries(traces).sindex": "()",
+         k1: "(Except.map List.unzip (List.mapM (fun (x : L × Nat) => snap_trace_simple bounds_of (index_of traces) simple_snap_ x.2 x.1 snap_threshold traces) (List.zipIdx traces)))",
+         "list(simply_snapped_traces)": "simply_snapped_traces",
+         k2: "(Except.map List.unzip (List.mapM (fun (x : L × Nat) => snap_others_to_trace bounds_of (index_of traces) ends_of bdist dist on insert x.2 x.1 snap_threshold simply_snapped_traces_list areas) (List.zipIdx simply_snapped_traces)))",
+         "list(snapped_traces)": "snapped_traces",
+         "any(changes + simple_changes)": "(List.any (changes ++ simple_changes) id)",
+         "([], False)": "([], false)"}
+    T = {"gpd.GeoSeries(traces).sindex": "Unit", "traces_spatial_index": "Unit", k1: "Except (List L × List Bool)", k2: "Except (List L × List Bool)",
+         "list(simply_snapped_traces)": "List L", "simply_snapped_traces_list": "List L", "list(snapped_traces)": "List L", "any(changes + simple_changes)": "Bool",
+         "([], False)": "List L × Bool"}
+    out.append(translate_function(
+        src, "snap_traces", "snap_traces", {"traces": "List L", "snap_threshold": "Rat", "areas": "Option (List A)"}, "List L × Bool", C, types=T, raises=True,
+        extra_params=[("{L}", "Type"), ("{P}", "Type"), ("{A}", "Type"), ("[BEq L]", ""), ("bounds_of", "L → Rat × Rat × Rat × Rat"),
+                      ("index_of", "List L → Rat × Rat × Rat × Rat → List Nat"), ("simple_snap_", "L → List L → Rat → Except String (L × Bool)"),
+                      ("ends_of", "L → List P"), ("bdist", "P → A → Rat"), ("dist", "P → L → Rat"), ("on", "P → L → Bool"), ("insert", "L → P → Rat → L")],
+        default_num="Rat", join="tuple"))
+    return "\n".join(out)
+
+
 def b_determine_intersect(S):
     """`determine_intersect`: which ordered pair of sets an X/Y node between two sets is recorded under, or ValueError"""
     fn = find_func(ast.parse(S[REL]), "determine_intersect")
@@ -1408,6 +1529,8 @@ ITEMS: List[Item] = [
     Item("SnapConstants", BAN, ["C01", "C03", "C06", "C16"], b_snap_constants),
     Item("SnapInsert", BAN, ["C06"], b_snap_insert),
     Item("InsertPoint", BAN, ["C06", "C04", "C01"], b_insert_point),
+    Item("SimpleSnap", BAN, ["C06", "C01"], b_simple_snap),
+    Item("SnapStage", BAN, ["C06", "C01"], b_snap_stage, deps=["SnapInsert"]),
     Item("SnapDriver", BAN, ["C06", "C03"], b_snap_driver),
     Item("BoundaryWeight", GENERAL, ["C08"], b_boundary_weight),
     Item("BranchBoundary", PARAMS, ["C08"], b_branch_boundary, extra_modules=[GENERAL, NETWORK]),
